@@ -233,10 +233,30 @@ def cases(tier, seed):
         for pk in ("none", "int"):
             out.append(_draw(gen.rng_for(909, i), cls=cls, pca_kind=pk, data="generic", wide=[False, False], tiny=True))
             i += 1
+    # mixed units inside a field (std ratio 1e-4 -> covariance condition ~1e8..2e9): well above the numerical rank
+    # threshold, so every direction has to survive the fractional whitening
+    for cls in ("CCA", "RDA", "CPCCA", "ComplexCCA", "HilbertCCA", "HilbertCPCCA"):
+        for rep in range(2 if tier == "quick" else 8):
+            out.append(_unit_mix(_draw(gen.rng_for(909 if rep < 2 else seed, i), cls=cls, pca_kind="none", data="generic", wide=[False, False], full=(rep % 2 == 0)), rep))
+            i += 1
     nrand = 450 if tier == "quick" else 12000
     for j in range(nrand):
         out.append(_draw(gen.rng_for(seed, 9, j)))
     return out
+
+
+def _unit_mix(c, rep):
+    c["unit_mix"] = [4, 0] if rep % 2 == 0 else [4, 4]
+    c["spec_q"] = [0.8, 0.95]
+    c["scale_exp"] = 0
+    c["solver"] = "full"
+    c.pop("random_state", None)
+    for f in (c["fx"], c["fy"]):
+        f["standardize"] = False
+        f["p"] = f["r"] = max(f["p"], 3)
+    if R.family(c["cls"]) == "CPCCA":
+        c["alpha"] = [min(c["alpha"][0], 0.5), c["alpha"][1]]
+    return c
 
 
 # --------------------------------------------------------------------------- helpers
